@@ -361,7 +361,8 @@ Definition late_for (en : entry) (old new : list event) : bool :=
 Definition some_late (st : state) (l : layout) : bool :=
   existsb (fun ne => late_for (snd ne) (content (st_layout st)) (content l)) (st_entries st).
 
-(** the same event visible in two places (a read issued inside a flush window), or a zero id *)
+(** the same event visible in two places: a read issued inside a flush window (passive memtable + published
+    segment), or an event replayed from a WAL file that outlived its segment at a restart *)
 Definition dup_content (l : layout) : bool :=
   negb (nodupN (map e_k (content l))) || negb (nodupN (map e_id (content l))).
 
